@@ -286,6 +286,25 @@ def ops_in(e, acc):
 ALIAS_ROOTS = {"p", "sh", "lit", "i", "uns", "sgn", "bv", "slc", "idx", "idxrt"}
 
 
+def same_object(e):
+    """identity of the Python object an expression denotes when it is exactly one existing object (a port, signal,
+    variable or named sub-expression, possibly through if-expressions / select_with whose branches all denote that
+    same object), else None.  Views and slices create a new qualifier object on every evaluation, so two of them
+    are never `the same object` for cohdl's branch merging."""
+    k = e[0]
+    if k == "p":
+        return ("p", e[1], "q" if e[2] is True else e[2])
+    if k == "sh":
+        return ("sh", e[1])
+    if k == "ite":
+        a, b = same_object(e[2]), same_object(e[3])
+        return a if (a is not None and a == b) else None
+    if k == "sel":
+        objs = [same_object(v) for _, v in e[2]] + ([same_object(e[3])] if e[3] is not None else [])
+        return objs[0] if (objs and objs[0] is not None and all(o == objs[0] for o in objs)) else None
+    return None
+
+
 def shared_of(shadows):
     """named sub-objects of a design: list of (tree, type, where) - stored under the key "shared" of the shadows dict"""
     return shadows.get("shared", [])
@@ -401,10 +420,10 @@ class Gen:
             e = self.try_gen(t, d)
             if e is None or e[0] in ALIAS_ROOTS:
                 continue
-            # `x if c else x` / select_with whose branches are all the same object is that object (no Temporary)
-            if e[0] == "ite" and e[2] == e[3]:
-                continue
-            if e[0] == "sel" and len({repr(v) for _, v in e[2]} | ({repr(e[3])} if e[3] is not None else set())) < 2:
+            # `x if c else x` / a select_with whose branches are all the SAME object is that object (no Temporary is
+            # created: _MergedBranch returns the common object) - recursively, e.g.
+            # `(select_with(k, {0: v, 1: v}) if c else (v if d else v))` is `v`: an alias, not a value
+            if same_object(e) is not None:
                 continue
             return e
         return None
